@@ -338,11 +338,28 @@ impl Run {
     /// child and merge what it finds: an overflow / debug-assertion panic on an in-domain input is a
     /// violation of the property in debug builds of the library.
     pub fn run_dbg_child(&mut self) {
+        self.dbg_child(None)
+    }
+
+    /// `run_dbg_child` for an engine whose code under test may fail to terminate: the child gets `cap` of
+    /// wall time.  A child that finds a call that does not return reports it as a violation itself and
+    /// ends; one that is still running after `cap` is killed, and that is a machinery failure naming the
+    /// child (exit 2, no verdict) — the parent never waits forever.
+    pub fn run_dbg_child_within(&mut self, cap: std::time::Duration) {
+        self.dbg_child(Some(cap))
+    }
+
+    fn dbg_child(&mut self, cap: Option<std::time::Duration>) {
         let dbg = match dbg_binary() {
             Some(d) => d,
             None => self.machinery_failure("the dbg-profile build of this engine does not exist (run ./check --setup)"),
         };
-        let o = std::process::Command::new(&dbg).args([self.prop.as_str(), self.tier.name()]).env("VCORE_CHILD", "1").output();
+        let mut cmd = std::process::Command::new(&dbg);
+        cmd.args([self.prop.as_str(), self.tier.name()]).env("VCORE_CHILD", "1");
+        let o = match cap {
+            None => cmd.output(),
+            Some(cap) => self.output_within(&mut cmd, &dbg, cap),
+        };
         let out = match o {
             Ok(o) if o.status.success() => String::from_utf8_lossy(&o.stdout).into_owned(),
             Ok(o) => self.machinery_failure(&format!("dbg-profile pass exited {:?}: {}", o.status, String::from_utf8_lossy(&o.stderr).chars().take(600).collect::<String>())),
@@ -369,6 +386,49 @@ impl Run {
         summary.insert("wall_s".into(), v["wall_s"].clone());
         summary.insert("violations".into(), json!(v["violations"].as_array().map_or(0, |a| a.len())));
         self.cov.insert("second_pass_debug_assertions_overflow_checks".into(), Value::Object(summary));
+    }
+
+    /// `Command::output` with a wall cap: both pipes are drained by threads; the end of the child's stdout
+    /// (it has exited) or the cap, whichever comes first, ends the wait.
+    fn output_within(&self, cmd: &mut std::process::Command, what: &std::path::Path, cap: std::time::Duration) -> std::io::Result<std::process::Output> {
+        use std::io::Read;
+        use std::process::Stdio;
+        let deadline = Instant::now() + cap;
+        let mut child = cmd.stdin(Stdio::null()).stdout(Stdio::piped()).stderr(Stdio::piped()).spawn()?;
+        let drain = |mut r: Box<dyn Read + Send>| {
+            let (tx, rx) = std::sync::mpsc::channel();
+            std::thread::spawn(move || {
+                let mut buf = vec![];
+                let _ = r.read_to_end(&mut buf);
+                let _ = tx.send(buf);
+            });
+            rx
+        };
+        let out = drain(Box::new(child.stdout.take().expect("piped")));
+        let err = drain(Box::new(child.stderr.take().expect("piped")));
+        let stdout = out.recv_timeout(cap).ok();
+        let status = loop {
+            match child.try_wait()? {
+                Some(st) => break Some(st),
+                None if stdout.is_none() || Instant::now() >= deadline => break None,
+                None => std::thread::sleep(std::time::Duration::from_millis(2)),
+            }
+        };
+        match (status, stdout) {
+            (Some(status), Some(stdout)) => Ok(std::process::Output { status, stdout, stderr: err.recv_timeout(std::time::Duration::from_secs(5)).unwrap_or_default() }),
+            _ => {
+                let pid = child.id();
+                let _ = child.kill();
+                let _ = child.wait();
+                self.machinery_failure(&format!(
+                    "the dbg-profile pass (child process {} {} {}, pid {pid}) was still running after its wall cap of {} s and was killed; no verdict",
+                    what.display(),
+                    self.prop,
+                    self.tier.name(),
+                    cap.as_secs()
+                ))
+            }
+        }
     }
 
     /// `--replay` mode: run the plain re-execution once and report.
